@@ -98,8 +98,8 @@ func randFloat(r *hx.Rand, is32 bool) float64 {
 	}
 	if is32 {
 		f = float64(float32(f))
-		if math.IsInf(f, 0) {
-			f = 2.5
+		if math.IsInf(f, 0) || (f == 0 && math.Signbit(f)) {
+			f = 2.5 // float32 overflow / underflow to -0: outside the well-formed values
 		}
 	}
 	return f
